@@ -700,6 +700,23 @@ func (e *SpecEnv) evalCall(x *ECall) SV {
 				v := e.eval(x.Args[0])
 				t := e.resolveType(exprString(x.Args[1]))
 				return SV{t: eq(app("itag", v.t), num(int64(tc.tagOf(t)))), typ: boolT}
+			case "lexlt", "byteseq":
+				// lexlt(a, b): lexicographic order of two byte strings (slices or arrays); uninterpreted, T-BYTES
+				var parts []string
+				for _, ax := range x.Args[:2] {
+					v := e.eval(ax)
+					switch u := types.Unalias(v.typ).Underlying().(type) {
+					case *types.Slice:
+						k, s := fc.bKey(u.Elem())
+						parts = append(parts, app("select", fc.comp(e.cur, k, s), sarr(v.t)), soff(v.t), slen(v.t))
+					case *types.Array:
+						parts = append(parts, v.t, "0", num(u.Len()))
+					default:
+						e.fail("%s of %s", id.Name, v.typ)
+					}
+				}
+				fc.eng.declareUF(fc, id.Name, []string{"(Array Int Int)", "Int", "Int", "(Array Int Int)", "Int", "Int"}, "Bool")
+				return SV{t: app(id.Name, parts...), typ: boolT}
 			case "bytes":
 				// bytes(s): the (Array Int Int) block behind a byte slice, for use with seq builtins
 				v := e.eval(x.Args[0])
